@@ -147,7 +147,8 @@ def build_child(spec):
 def build_tree(t):
     """Compositions whose canvas has cells spanning several shards: Pile / Columns of unequal heights.
     ["t", lines] Text | ["pile", [..]] Pile | ["cols", [..], dividechars] Columns | ["f", cols, rows] fixed grid |
-    ["fpile", [..]] Pile of packed (fixed) children."""
+    ["fpile", [..]] Pile of packed (fixed) children | ["pcols", [..], dividechars] Columns of packed children |
+    ["sheet", node] FIXED-only wrapper (sizing {FIXED}) around a packed composition."""
     import urwid
     FixedGrid, _, _ = W()
     k = t[0]
@@ -161,7 +162,37 @@ def build_tree(t):
         return FixedGrid(t[1], t[2])
     if k == "fpile":
         return urwid.Pile([("pack", build_tree(c)) for c in t[1]])
+    if k == "pcols":
+        return urwid.Columns([("pack", build_tree(c)) for c in t[1]], dividechars=t[2] if len(t) > 2 else 0)
+    if k == "sheet":
+        return W_sheet()(build_tree(t[1]))
     raise core.MachineryError("bad tree node " + str(k))
+
+
+_SHEET = None
+
+
+def W_sheet():
+    """FIXED-only wrapper around a composition packed to its natural size: its canvas keeps the several shards /
+    carried-over cells of the composition, and Scrollable has to cut it on the right when it is wider than the view."""
+    global _SHEET
+    if _SHEET is None:
+        import urwid
+
+        class FixedSheet(urwid.WidgetDecoration):
+            def sizing(self):
+                return frozenset((urwid.FIXED,))
+
+            def selectable(self):
+                return False
+
+            def pack(self, size=(), focus=False):
+                return self._original_widget.pack((), focus)
+
+            def render(self, size, focus=False):
+                return urwid.CompositeCanvas(self._original_widget.render((), focus))
+        _SHEET = FixedSheet
+    return _SHEET
 
 
 _FIXED_MEMO = {}
@@ -284,7 +315,8 @@ class C20(core.Check):
             "set_scrollpos, content-change ops); exhaustive small sweep (lines x heights x initial positions x pairs of keys/wheel "
             "events) plus random histories over Text (wrapping or not), Pile with Edit/SelectableIcon, fixed widgets wider/narrower "
             "than the view (including wider AND shorter), Pile/Columns compositions with unequal column heights and piles of fixed "
-            "widgets (multi-shard canvases) walked through every scroll position, selectable key-grabbing flow widgets with and without cursor, ListBox under ScrollBar; non-trivial = some "
+            "widgets (multi-shard canvases), and FIXED-only sheets (packed Columns/Pile compositions wider than the view, cut on the "
+            "right at many view widths), each walked through every scroll position, selectable key-grabbing flow widgets with and without cursor, ListBox under ScrollBar; non-trivial = some "
             "render had to trim or drew a bar; distinct by hash of (case, outcome)")
     trusted_base = [
         "Coq 8.16.1 kernel (coqc; vm_compute for closed examples and the finite float/thumb grids)",
@@ -293,7 +325,8 @@ class C20(core.Check):
         "extraction: ExtrOcamlBasic only; Z/positive/Q stay Coq datatypes; OCaml 4.13.1; tools/driver/driver.ml",
         "hand model of Scrollable.render/keypress/mouse_event/set_scrollpos/rows_max and ScrollBar.render/mouse_event in Model/Scrollable.v (validated by this correspondence, not proved against Python)",
         "Model/ScrollFloat.v as a description of CPython's binary64 arithmetic (correct rounding of int/int, float*int, float/int, round(), int()): validated against primitive floats in Coq and against CPython by the correspondence",
-        "the recording patch on the wrapped widget and the Python oracle in harness/props/c20.py",
+        "the recording patch on the wrapped widget, the twin wrapped widget used as the oracle's reference rendering (same spec, "
+        "replayed keypress/mouse_event/content calls) and the Python oracle in harness/props/c20.py",
     ]
     assumptions = [
         "view sizes are at least 1x1 and wider than the scrollbar (a 0-column wrapped widget is outside the domain: Text.render((0,)) raises)",
@@ -329,31 +362,50 @@ class C20(core.Check):
         fixed = is_fixed(case["child"])
         bw = max(1, bar[0]) if bar else 0
         outs, obs = [], []
-        last_canvas_obs = {}
+        last_canvas_obs = {}      # size Scrollable.render was called with -> what the wrapped widget rendered then
+        last_ssize = {}           # top-level size -> the size Scrollable.render was last called with for it
         last_bobs = {}
+        s_sizes = []              # sizes Scrollable.render is called with (recorded even when its canvas comes from the cache)
+        s_render = s.render
+
+        def s_render_recorded(sz, focus=False):
+            s_sizes.append(tuple(sz))
+            return s_render(sz, focus)
+        s.render = s_render_recorded
 
         def state():
             old = s._old_cursor_coords
             return {"pos": s.get_scrollpos(), "fwd": bool(s._forward_keypress), "act": ACT.get(s._scroll_action, -1),
                     "cached": s.rows_max(), "old": list(old) if old is not None else None}
 
+        # The reference for "the wrapped widget's full rendering" is a TWIN of the wrapped widget: built from the same spec,
+        # given exactly the calls (keypress, mouse_event, content changes) the wrapped widget received, and never handed to
+        # Scrollable - so nothing the code under test (or the canvas cache it shares with the wrapped widget) does to the
+        # wrapped widget's canvases can leak into the reference.
+        twin = build_child(case["child"])
+
+        def replay_on_twin():
+            for name, a, _r in list(rec.calls):
+                if name in ("keypress", "mouse_event"):
+                    try:
+                        getattr(twin, name)(*a)
+                    except Exception:
+                        pass
+
         def truth(w):
             """The wrapped widget's own full rendering at the sizes it may legitimately be given."""
             t = {}
             sizes = [()] if fixed else [(w,)] + ([(w - bw,)] if bar and w - bw >= 1 else [])
-            rec.depth += 1           # not a call made by the code under test: do not record
-            try:
-                for sz in sizes:
-                    try:
-                        t[str(cw_of(sz))] = text_rows(rec.orig["render"](sz, focus))
-                    except Exception:    # the wrapped widget itself fails at this size
-                        t[str(cw_of(sz))] = None
-            finally:
-                rec.depth -= 1
+            for sz in sizes:
+                try:
+                    t[str(cw_of(sz))] = text_rows(twin.render(sz, focus))
+                except Exception:    # the wrapped widget itself fails at this size
+                    t[str(cw_of(sz))] = None
             return t
 
         for op in case["ops"]:
             del rec.calls[:]
+            del s_sizes[:]
             k = op[0]
             if k == "render":
                 size = (op[1], op[2])
@@ -368,13 +420,18 @@ class C20(core.Check):
                 renders = [c for c in rec.calls if c[0] == "render"]
                 rowcalls = [c for c in rec.calls if c[0] in ("rows", "pack")]
                 key = (size, bool(bar))
+                # a CanvasCache hit (ScrollBar's or Scrollable's canvas) makes no call on the wrapped widget: the canvas
+                # shown is the one rendered when Scrollable.render last really ran at that size
+                if s_sizes:
+                    last_ssize[key] = s_sizes[-1]
+                ssize = last_ssize.get(key)
                 if renders:
                     r = renders[-1]
                     cob = dict(r[2])
                     cob["csize"] = cw_of(r[1][0])
                     cob["nrender"] = len(renders)
-                    last_canvas_obs[key] = cob
-                cob = last_canvas_obs.get(key)
+                    last_canvas_obs[ssize] = cob
+                cob = last_canvas_obs.get(ssize)
                 if rowcalls or key not in last_bobs:
                     def nrows(c):
                         return c[2][1] if c[0] == "pack" else c[2]
@@ -401,6 +458,7 @@ class C20(core.Check):
                     err = None
                 except Exception as e:
                     err = type(e).__name__
+                replay_on_twin()
                 kc = [c for c in rec.calls if c[0] == "keypress"]
                 gc = [c for c in rec.calls if c[0] == "get_cursor_coords"]
                 o = {"op": "key", "has_gcc": hasattr(child, "get_cursor_coords"), "gcc": gc[0][2] if gc else None,
@@ -419,6 +477,7 @@ class C20(core.Check):
                     err = None
                 except Exception as e:
                     err = type(e).__name__
+                replay_on_twin()
                 mc = [c for c in rec.calls if c[0] == "mouse_event"]
                 o = {"op": "mouse", "has_mouse": hasattr(child, "mouse_event"), "called": bool(mc),
                      "handled": bool(mc) and bool(mc[0][2]), "crow": mc[0][1][4] if mc else 0,
@@ -438,6 +497,7 @@ class C20(core.Check):
                 outs.append(res)
             elif k == "content":
                 change_content(child, op[1])
+                change_content(twin, op[1])
                 obs.append({"op": "content"})
                 outs.append({"op": "content"})
             else:
@@ -495,8 +555,10 @@ class C20(core.Check):
 
     def run_listbox(self, case):
         import urwid
-        lb = urwid.ListBox(urwid.SimpleFocusListWalker([urwid.Text("\n".join(f"i{j}l{q}" for q in range(n))) for j, n in
-                                                        enumerate(case["items"])]))
+        def item(j, n):
+            txt = "\n".join(f"i{j}l{q}" for q in range(n))
+            return urwid.SelectableIcon(txt, 0) if case.get("sel") else urwid.Text(txt)
+        lb = urwid.ListBox(urwid.SimpleFocusListWalker([item(j, n) for j, n in enumerate(case["items"])]))
         sb = urwid.ScrollBar(lb, thumb_char=THUMB, trough_char=TROUGH, side=case["side"], width=case["width"])
         outs = []
         size = tuple(case["size"])
@@ -654,6 +716,18 @@ class C20(core.Check):
         return len(mm.group(1)), len(mm.group(2)), len(mm.group(3))
 
     def oracle(self, case, res):
+        """Never raises: a result the judge cannot read is itself reported as a violation message."""
+        try:
+            return self.judge(case, res)
+        except core.MachineryError:
+            raise
+        except Exception as e:      # malformed / unexpected implementation result
+            import traceback
+            where = traceback.extract_tb(e.__traceback__)[-1]
+            return [f"implementation result could not be judged ({type(e).__name__}: {str(e)[:80]} at c20.py:{where.lineno}); "
+                    f"ops {[o[0] for o in case.get('ops', [])][:12]}"]
+
+    def judge(self, case, res):
         if case.get("kind") == "thumb":
             return self.oracle_thumb(case, res)
         if case.get("kind") == "listbox":
@@ -747,11 +821,12 @@ class C20(core.Check):
                             break
                     mono.setdefault(key, []).append((p, top))
                 # --- handled keys / mouse events are not used for scrolling
-                if prev_render is not None and p is not None and pending and all(x[0] for x in pending):
+                if prev_render is not None and p is not None and prev_render[3] is not None and pending \
+                        and all(x[0] for x in pending):
                     _, psize, ptotal, pp, pfull = prev_render
                     cur = (o["canvas"] or {}).get("cursor")
                     cursor_visible = cur is None or pp <= cur[1] < pp + h
-                    if psize == (w, h) and ptotal == total and pfull == full and cursor_visible and pp is not None and p != pp:
+                    if psize == (w, h) and ptotal == total and pfull == full and cursor_visible and p != pp:
                         msgs.append(f"{tag}: every event since the last render was handled by the wrapped widget, yet the position "
                                     f"moved {pp} -> {p}")
                 prev_render = (i, (w, h), total, p, full)
@@ -803,6 +878,13 @@ class C20(core.Check):
             parts = self.parse_bar(marks)
             if r["total"] > h and parts is None:
                 msgs.append(f"op#{i} render: {r['total']} rows > height {h} but no well-formed scrollbar column: {marks}")
+            if parts is not None and parts[1] > 0:
+                body0 = txt[0][bw:] if case["side"] == "left" else txt[0][:w - bw]
+                # the first row of the first item is in the top row: nothing is scrolled out above (holds in the absolute
+                # and in the relative mode) - the thumb must touch the top
+                if body0.startswith("i0l0") and parts[0] > 0:
+                    msgs.append(f"op#{i} render: the first row of the content is shown in the top row but the thumb is "
+                                f"{parts[0]} rows below the top (parts {list(parts)})")
         return msgs
 
     # ------------------------------------------------------------------ bookkeeping
@@ -898,6 +980,8 @@ class C20(core.Check):
         for _ in range(1500 if quick else 20000):
             yield self.random_case(rng)
         yield from self.tree_cases(rng, tier)
+        yield from self.sheet_cases(rng, tier)
+        yield from self.shrink_view_cases(rng, tier)
         yield from self.wide_short_fixed_cases(rng, tier)
         # thumb arithmetic alone: exhaustive small grid + boundary-biased large values
         hmax, rmax = (12, 40) if quick else (24, 90)
@@ -910,7 +994,7 @@ class C20(core.Check):
             rows = h + rng.choice([1, 1, 2, 3, h, h + 1, 2 * h, 7 * h + 3, rng.randrange(1, 10 ** 6)])
             pos = rng.choice([0, 1, rows - h, rows - h - 1 if rows - h > 1 else 0, rng.randrange(0, rows - h + 1)])
             yield {"kind": "thumb", "maxrow": h, "rows": rows, "pos": pos}
-        for _ in range(150 if quick else 1500):
+        for _ in range(500 if quick else 3000):
             yield self.random_listbox(rng)
 
     # ---- multi-shard content: Pile/Columns compositions with unequal column heights, piles of fixed widgets
@@ -932,6 +1016,76 @@ class C20(core.Check):
             ["fpile", [["f", 5, 4], ["f", 5, 3], ["f", 5, 5]]],
             ["fpile", [["f", 9, 2], ["f", 9, 6]]],
         ]
+
+    # ---- FIXED-only multi-shard content (cut on the right when wider than the view)
+    @staticmethod
+    def sheet_shapes():
+        def t(tag, n):
+            return ["t", [f"{tag}{i:02d}" for i in range(n)]]
+
+        def ones(tag, n, wide=""):
+            return ["fpile", [["t", [f"{tag}{i:02d}{wide}"]] for i in range(n)]]
+        return [
+            ["sheet", ["pcols", [t("L", 9), ones("right-", 9)], 1]],
+            ["sheet", ["pcols", [ones("a", 4), t("M", 7), ones("c", 5, "xyz")]]],
+            ["sheet", ["pcols", [t("T", 6), ones("u", 3, "-wide-cell"), t("V", 8)], 2]],
+            ["sheet", ["pcols", [["f", 4, 6], ["fpile", [["f", 5, 2], ["f", 5, 3]]], t("Z", 4)], 1]],
+            ["sheet", ["fpile", [["pcols", [t("p", 3), ones("q", 3, "qq")]], ["pcols", [t("r", 4), ones("s", 2, "ss")]]]]],
+        ]
+
+    def random_sheet(self, rng):
+        def t(tag, n):
+            return ["t", [f"{tag}{i:02d}" for i in range(n)]]
+
+        def ones(tag, n, wide):
+            return ["fpile", [["t", [f"{tag}{i:02d}{wide}"]] for i in range(n)]]
+
+        def cell(tag):
+            c = rng.random()
+            if c < 0.4:
+                return t(tag, rng.choice([2, 4, 6, 9]))
+            if c < 0.85:
+                return ones(tag, rng.choice([1, 2, 3, 5, 8]), rng.choice(["", "x", "-long-one"]))
+            return ["f", rng.choice([2, 4, 7]), rng.choice([2, 3, 6])]
+        return ["sheet", ["pcols", [cell(x) for x in "abcd"[:rng.choice([2, 2, 3, 4])]], rng.choice([0, 1, 2])]]
+
+    def shrink_view_cases(self, rng, tier):
+        """Composite content (Pile/Columns: a CompositeCanvas filling the view width) first shown in a view TALLER than it
+        (bottom padding), then - the previous screen canvas still alive, as under MainLoop - in views with fewer rows,
+        scrolled to the end and page-wise: blank rows may appear only while the content is shorter than the CURRENT view."""
+        def total(tree, w):
+            try:
+                return build_tree(tree).rows((w,))
+            except Exception:
+                return 6
+        trees = [t for t in self.tree_shapes() if t[0] != "fpile"]
+        trees += [["pile", [["t", [f"a{i}"]] for i in range(5)]], ["cols", [["t", ["x0", "x1", "x2"]], ["t", ["y0", "y1", "y2", "y3"]]]]]
+        trees += [self.random_tree(rng) for _ in range(40 if tier == "quick" else 400)]
+        for i, tree in enumerate(trees):
+            if tree[0] == "fpile":
+                continue
+            w = [8, 6, 11][i % 3]
+            bar = [None, None, [1, "right"]][i % 3]
+            ww = w + (1 if bar else 0)
+            n = total(tree, w)
+            ops = [["render", ww, n + 3], ["render", ww, max(1, n - 2)], ["key", "end"], ["render", ww, max(1, n - 2)],
+                   ["render", ww, n + 1], ["render", ww, 2], ["key", "page down"], ["render", ww, 2], ["key", "page down"],
+                   ["render", ww, 2], ["key", "end"], ["render", ww, 2], ["render", ww, n + 2], ["render", ww, max(1, n // 2)],
+                   ["setpos", -1], ["render", ww, max(1, n // 2)]]
+            yield {"child": {"kind": "tree", "tree": tree}, "bar": bar, "force": False, "focus": True, "size": [ww, n + 3], "ops": ops}
+
+    def sheet_cases(self, rng, tier):
+        quick = tier == "quick"
+        for i, tree in enumerate(self.sheet_shapes()):
+            for h in ([2, 4] if quick else [1, 2, 3, 4, 6]):
+                for w in ([3, 6, 9, 14] if quick else [1, 2, 3, 4, 5, 6, 8, 9, 11, 14, 17]):
+                    bar = [None, [1, "right"], [1, "left"]][(i + h + w) % 3]
+                    yield self.walk_case(tree, w + (1 if bar else 0), h, bar, 9)
+        for _ in range(120 if quick else 1500):
+            tree = self.random_sheet(rng)
+            bar = rng.choice([None, None, [1, "right"], [2, "left"]])
+            bw = bar[0] if bar else 0
+            yield self.walk_case(tree, bw + rng.choice([1, 2, 3, 5, 7, 10, 13]), rng.choice([1, 2, 3, 4, 5]), bar, rng.choice([5, 9]))
 
     def random_tree(self, rng):
         def t(tag, n):
@@ -996,7 +1150,7 @@ class C20(core.Check):
     def random_child(self, rng):
         k = rng.choice(["text", "text", "textlong", "pile", "fixed", "fixed", "flow", "flowcur", "tree"])
         if k == "tree":
-            return {"kind": "tree", "tree": self.random_tree(rng)}
+            return {"kind": "tree", "tree": self.random_tree(rng) if rng.random() < 0.6 else self.random_sheet(rng)}
         if k == "text":
             return self.text_child(rng.choice([0, 1, 2, 3, 4, 5, 6, 9, 14]))
         if k == "textlong":
@@ -1068,13 +1222,14 @@ class C20(core.Check):
         width = rng.choice([1, 1, 2])
         sz = [width + rng.choice([3, 5]), rng.choice([1, 2, 3, 5, 8])]
         ops = [["render"] + sz]
-        for _ in range(rng.choice([1, 2, 4])):
+        for _ in range(rng.choice([1, 2, 4, 6])):
             if rng.random() < 0.7:
-                ops.append(["key", rng.choice(["up", "down", "page up", "page down", "home", "end"])])
+                ops.append(["key", rng.choice(["up", "down", "down", "down", "page up", "page down", "home", "end"])])
             else:
                 ops.append(["mouse", rng.choice([4, 5]), 0, 0])
             ops.append(["render"] + sz)
-        return {"kind": "listbox", "items": items, "side": rng.choice(["left", "right"]), "width": width, "size": sz, "ops": ops}
+        return {"kind": "listbox", "items": items, "sel": rng.random() < 0.5, "side": rng.choice(["left", "right"]),
+                "width": width, "size": sz, "ops": ops}
 
     def search_cases(self, rng, tier):
         for total in range(0, 10):
